@@ -861,46 +861,417 @@ def _is_run_result(cb, run, e, at):
     return bool(lv) and all(x is run for (x, _n) in lv)
 
 
-def _first_exception_ok(cb, run):
-    """Iff raise_first_exception, the first element (in order) of the runner's answer that is an Exception instance
-    is raised: decided on the conditions under which each `raise <element>` is reached, relative to those under
-    which the runner was called."""
-    base_c = cb.conditions(cb.nodes(run)[0])
-    if base_c is None:
-        raise AnalysisError("call_batch: too many paths")
-    base = frozenset.intersection(*base_c) if base_c else frozenset()
-    RFE = ("raise_first_exception", True)
+# ---- "the first failing element, in order" ---------------------------------------------------------------------
+
+def eval3(fa, t, n, atom, _depth=0):
+    """Three-valued value (True / False / None = not decided) of the branch test `t` at CFG node `n` when the atomic
+    tests `atom(expr, node)` recognises have the values it answers.  Negation, conjunction, disjunction, conditional
+    expressions and boolean locals bound once are evaluated through."""
+    v = atom(t, n)
+    if v is not None:
+        return v
+    if isinstance(t, ast.UnaryOp) and isinstance(t.op, ast.Not):
+        x = eval3(fa, t.operand, n, atom, _depth)
+        return None if x is None else not x
+    if isinstance(t, ast.BoolOp):
+        vs = [eval3(fa, x, n, atom, _depth) for x in t.values]
+        dom = isinstance(t.op, ast.Or)
+        if any(x is dom for x in vs):
+            return dom
+        return (not dom) if all(x is (not dom) for x in vs) else None
+    if isinstance(t, ast.IfExp):
+        c = eval3(fa, t.test, n, atom, _depth)
+        a, b = eval3(fa, t.body, n, atom, _depth), eval3(fa, t.orelse, n, atom, _depth)
+        if c is None:
+            return a if a is b else None
+        return a if c else b
+    if isinstance(t, ast.Name) and _depth < 4:
+        e, at = bound_value(fa, t, n)
+        if e is not t and isinstance(e, (ast.Compare, ast.BoolOp, ast.UnaryOp, ast.IfExp, ast.Call)):
+            return eval3(fa, e, at, atom, _depth + 1)
+    return None
+
+
+def under(fa, atom):
+    """edge_ok predicate: only the branch edges that can be taken when the atomic tests have the values `atom` gives
+    them.  Exception edges out of anything but a `raise` statement are not followed (the scan itself does not fail)."""
+    def ok(s, d, l):
+        nd = fa.cfg.node(s)
+        if l == "exc":
+            return isinstance(nd.ast, ast.Raise)
+        if l in ("T", "F") and nd.kind == "test" and nd.ast is not None:
+            v = eval3(fa, nd.ast, s, atom)
+            return v is None or v == (l == "T")
+        return True
+    return ok
+
+
+def none_test(t):
+    """(X, b) for a comparison that says "(X is None) == b", else None."""
+    if isinstance(t, ast.Compare) and len(t.ops) == 1 and isinstance(t.ops[0], (ast.Is, ast.IsNot, ast.Eq, ast.NotEq)):
+        l, r = t.left, t.comparators[0]
+        if A.is_none(l):
+            l, r = r, l
+        if A.is_none(r):
+            return l, isinstance(t.ops[0], (ast.Is, ast.Eq))
+    return None
+
+
+def failure_test(e):
+    """X for `isinstance(X, Exception)` — the test by which a result slot is told from a failure slot."""
+    if isinstance(e, ast.Call) and isinstance(e.func, ast.Name) and e.func.id == "isinstance" and len(e.args) == 2 and not e.keywords \
+            and isinstance(e.args[1], ast.Name) and e.args[1].id == "Exception":
+        return e.args[0]
+    return None
+
+
+def resolve_local_callee(ck, fa, call):
+    """(FuncInfo, parameter names without self) of a call of a function of the same module / a method of the same
+    class (through self / cls / the class name), else None."""
+    f = call.func
+    fi = None
+    bound = False
+    if isinstance(f, ast.Name):
+        fi = fa.fi.module.functions.get(f.id)
+    elif isinstance(f, ast.Attribute) and isinstance(f.value, ast.Name) and fa.fi.cls is not None:
+        top = fa.fi
+        while top.parent is not None:
+            top = top.parent
+        if f.value.id in ("self", "cls") or f.value.id == top.cls.name:
+            fi = ck.repo.find_method(top.cls, f.attr)
+            bound = fi is not None and not fi.is_static
+    if fi is None or fi.node.args.vararg or fi.node.args.kwarg:
+        return None
+    ps = [a.arg for a in fi.node.args.posonlyargs + fi.node.args.args]
+    return fi, (ps[1:] if bound else ps)
+
+
+class FirstFailure:
+    """Decides "this is the first element (in order) of the sequence with role `role` that is an Exception instance":
+    as a loop that walks the sequence and acts (raise / return / keep-and-stop) on exactly the first failing element,
+    as a value (`next(<failing elements>, None)`, the head of the list of failing elements, a local filled by such a
+    loop, the result of a local function that returns such a value), under an optional standing assumption about
+    other tests (`assume(expr, node)` -> True / False / None)."""
+
+    def __init__(self, ck, fa, seqs, role, assume=None):
+        self.ck, self.fa, self.seqs, self.role = ck, fa, seqs, role
+        self.assume = assume or (lambda e, n: None)
+        self.ploops = [(l, p) for (l, p) in position_loops(fa, seqs) if fa.enclosing(l, (ast.For, ast.While)) is None]
+        self._scan_cache = {}
+
+    # ---- loops ------------------------------------------------------------------------------------------------
+    def home(self, node):
+        """The scan loop (For, PosIter) around `node`."""
+        for (l, p) in self.ploops:
+            if self.fa.inside(node, l):
+                return (l, p)
+        return None
+
+    def current(self, lp, p, e, at):
+        """Does `e` denote the element the loop is looking at?"""
+        return p.elem_role(self.seqs, e, at) == self.role
+
+    def scan_complete(self, lp, p, actions):
+        """The loop visits the elements in order and, for the first failing one, performs one of `actions` and stops;
+        for every other element it goes on to the next one without acting."""
+        fa = self.fa
+        key = (id(lp), tuple(sorted(actions)))
+        if key in self._scan_cache:
+            return self._scan_cache[key]
+        heads = heads_of(fa, lp)
+        H, acts = set(heads), set(actions)
+        starts = body_starts(fa, heads)
+
+        def atom(val):
+            def f(e, n):
+                x = failure_test(e)
+                if x is not None and self.current(lp, p, x, n):
+                    return val
+                return self.assume(e, n)
+            return f
+
+        def inside(i):
+            a = fa.cfg.node(i).ast
+            return a is not None and fa.inside(a, lp)
+        ok = bool(acts) and bool(starts)
+        if ok:
+            # a failing element: an action is reached, never the next element or the code after the loop without one
+            r = fa.cfg.reach(starts, removed=acts, edge_ok=under(fa, atom(True)))
+            ok = not any(i in H or not inside(i) for i in r)
+        if ok:
+            # any other element: nothing is acted on and the loop goes on to the next element
+            r = fa.cfg.reach(starts, removed=H, edge_ok=under(fa, atom(False)))
+            ok = not (r & acts) and all(inside(i) for i in r)
+        if ok:
+            # after acting the scan is over
+            ok = not any(H & fa.cfg.reach([a], include_start=False) for a in acts)
+        self.ck.paths_enumerated += 3
+        self._scan_cache[key] = ok
+        return ok
+
+    # ---- values -----------------------------------------------------------------------------------------------
+    def cases(self, e, at, gates=(), _seen=None, _depth=0):
+        """What `e` (at node `at`) may hold: [(leaf expression, node, gates)] through every reaching plain assignment
+        and both arms of conditional expressions (gates = ((test, node, arm taken), ...))."""
+        seen = _seen if _seen is not None else set()
+        if isinstance(e, ast.IfExp):
+            return self.cases(e.body, at, gates + ((e.test, at, True),), seen, _depth) + \
+                self.cases(e.orelse, at, gates + ((e.test, at, False),), seen, _depth)
+        if isinstance(e, ast.Name) and _depth < 10:
+            ds = self.fa.df.reaching(at, e.id)
+            if ds and all(d.kind == "assign" and d.value is not None for d in ds):
+                out = []
+                for d in ds:
+                    if (d.node, d.name) in seen:
+                        continue
+                    seen.add((d.node, d.name))
+                    out += self.cases(d.value, d.node, gates, seen, _depth + 1)
+                return out
+        return [(e, at, gates)]
+
+    def _failing_elements(self, g, at):
+        """Is the comprehension / generator `g` "the failing elements of the sequence, in order"?"""
+        if not isinstance(g, (ast.GeneratorExp, ast.ListComp)) or len(g.generators) != 1:
+            return False
+        gen = g.generators[0]
+        if len(gen.ifs) != 1 or gen.is_async:
+            return False
+        p = pos_iter(self.seqs, gen.target, gen.iter, at)
+        x = failure_test(gen.ifs[0])
+        return p is not None and x is not None and p.elem_role(self.seqs, x, at) == self.role and p.elem_role(self.seqs, g.elt, at) == self.role
+
+    def _one_origin(self, e, at):
+        lv = origins(self.fa, e, at)
+        return lv[0] if len(lv) == 1 else (None, None)
+
+    def hit_leaf(self, leaf, at):
+        """For a leaf expression that denotes the first failing element or None: (entry nodes, commit nodes, list
+        expression or None) — every evaluation passes an entry node, the choice is made at a commit node, and when the
+        value is the head of the list of failing elements that list is the third component.  None: not such a leaf."""
+        fa = self.fa
+        if isinstance(leaf, ast.Call) and isinstance(leaf.func, ast.Name) and leaf.func.id == "next" and len(leaf.args) == 2 \
+                and not leaf.keywords and A.is_none(leaf.args[1]):
+            g, gat = self._one_origin(leaf.args[0], at)
+            if g is not None and isinstance(g, ast.GeneratorExp) and self._failing_elements(g, gat):
+                return [at], [at], None
+            return None
+        if isinstance(leaf, ast.Subscript) and isinstance(leaf.slice, ast.Constant) and type(leaf.slice.value) is int and leaf.slice.value == 0:
+            g, gat = self._one_origin(leaf.value, at)
+            if g is not None and isinstance(g, ast.ListComp) and self._failing_elements(g, gat) and not self._edited(leaf.value):
+                return [at], [at], leaf.value
+            return None
+        if isinstance(leaf, ast.Call):
+            r = resolve_local_callee(self.ck, fa, leaf)
+            if r is None or any(isinstance(a, ast.Starred) for a in leaf.args) or any(k.arg is None for k in leaf.keywords):
+                return None
+            fi, params = r
+            fed = [params[i] for i, a in enumerate(leaf.args) if i < len(params) and self.seqs.role(a, at) == self.role] + \
+                  [k.arg for k in leaf.keywords if k.arg in params and self.seqs.role(k.value, at) == self.role]
+            if len(fed) == 1 and returns_first_failure(self.ck, fi, fed[0]):
+                return [at], [at], None
+            return None
+        if isinstance(leaf, ast.Name):
+            # a local that keeps the element a scan loop stopped at
+            st = fa.cfg.node(at).ast
+            h = self.home(st) if st is not None else None
+            if h is not None and self.current(h[0], h[1], leaf, at):
+                return heads_of(fa, h[0]), [at], None
+        return None
+
+    def _edited(self, e):
+        """Is the local list `e` changed after it was made?"""
+        if not isinstance(e, ast.Name):
+            return False
+        fa = self.fa
+        if len(all_defs(fa, e.id)) != 1 or e.id in fa.df.params:
+            return True
+        if any(A.dotted(A.call_recv(c)) == e.id and A.call_attr(c) in MUTATORS + ("append",) for c in fa.calls()):
+            return True
+        return any(isinstance(t, ast.Subscript) and A.dotted(t.value) == e.id for st in fa.stmts((ast.Assign, ast.AugAssign, ast.Delete))
+                   for t in (st.targets if isinstance(st, (ast.Assign, ast.Delete)) else [st.target]))
+
+    def value(self, e, at):
+        """If `e` holds the first failing element, or None when there is none: the list of its non-None cases as
+        (entry nodes, commit nodes, gates, list expression); None when `e` may hold anything else."""
+        fa = self.fa
+        out = []
+        kept = {}
+        for (leaf, n, gates) in self.cases(e, at):
+            if A.is_none(leaf):
+                continue
+            h = self.hit_leaf(leaf, n)
+            if h is None:
+                return None
+            entry, commit, lst = h
+            st = fa.cfg.node(n).ast
+            home = self.home(st) if (isinstance(leaf, ast.Name) and st is not None) else None
+            if home is not None:
+                kept.setdefault(id(home[0]), (home, []))[1].append(n)
+            out.append((entry, commit, gates, lst))
+        for (home, acts) in kept.values():
+            if not self.scan_complete(home[0], home[1], acts):
+                return None
+        return out or None
+
+
+    def present(self, val, e, at, lists, base):
+        """Atom: every test that says "the value `e` (as read at node `at`) is not None / is truthy" or "the list of
+        failing elements (one of `lists`) is non-empty" has the value `val`; other tests as `base` says."""
+        fa = self.fa
+        want = fa.xnorm(e, at)
+
+        def f(t, n):
+            nt = none_test(t)
+            x, v = (nt[0], (not nt[1]) == val) if nt is not None else (t, val)
+            if isinstance(x, (ast.Name, ast.Attribute, ast.Subscript)) and fa.xnorm(x, n) == want \
+                    and (not isinstance(x, ast.Name) or n == at or fa.df.same_defs(x.id, n, at)):
+                return v
+            if nt is None and lists:
+                inner, sign = t, True
+                if isinstance(t, ast.Compare) and len(t.ops) == 1 and isinstance(t.comparators[0], ast.Constant) and t.comparators[0].value == 0 \
+                        and isinstance(t.ops[0], (ast.Gt, ast.NotEq, ast.Eq)):
+                    inner, sign = t.left, not isinstance(t.ops[0], ast.Eq)
+                    if not (isinstance(inner, ast.Call) and isinstance(inner.func, ast.Name) and inner.func.id == "len"):
+                        return base(t, n)
+                if isinstance(inner, ast.Call) and isinstance(inner.func, ast.Name) and inner.func.id == "len" and len(inner.args) == 1 and not inner.keywords:
+                    inner = inner.args[0]
+                if isinstance(inner, ast.Name) and any(A.norm(inner) == A.norm(l) for l in lists):
+                    return val == sign
+            return base(t, n)
+        return f
+
+
+_RFF_BUSY = set()
+NOTHING = (lambda e, n: None)
+
+
+def returns_first_failure(ck, fi, pname):
+    """Does the function return the first element (in order) of its parameter `pname` that is an Exception instance,
+    and None when there is none — on every path, whatever the other parameters are?"""
+    key = (fi.qual, pname)
+    if key in _RFF_BUSY:
+        return False
+    _RFF_BUSY.add(key)
+    try:
+        g = FA(ck, fi)
+        if pname not in g.fi.params or any(isinstance(x, (ast.Yield, ast.YieldFrom, ast.Await)) for x in ast.walk(g.node)):
+            return False
+        ff = FirstFailure(ck, g, Seqs(g, pname), "input")
+        rets = [r for r in g.returns() if g.nodes(r)]
+        in_loop = {}
+        nones, scans = [], []
+        ok = True
+        for r in rets:
+            at = g.nodes(r)[0]
+            if r.value is None or A.is_none(r.value):
+                nones += g.nodes(r)
+                continue
+            h = ff.home(r)
+            if h is not None and ff.current(h[0], h[1], r.value, at):
+                in_loop.setdefault(id(h[0]), (h, []))[1].extend(g.nodes(r))
+                continue
+            cs = ff.value(r.value, at)
+            if cs is None:
+                return False
+            lists = [l for (_e, _c, _g, l) in cs if l is not None]
+            for (entry, _commit, gates, lst) in cs:
+                # the case is selected when there is a failing element, and (the head of a list) only then
+                on = all(eval3(g, t, n, ff.present(True, r.value, at, lists, NOTHING)) is arm for (t, n, arm) in gates)
+                off = lst is None or any(eval3(g, t, n, ff.present(False, r.value, at, lists, NOTHING)) is (not arm) for (t, n, arm) in gates)
+                # and it is computed on every path to this return
+                ok = ok and on and off and all(g.cfg.must_pass(entry, i) for i in g.nodes(r))
+        for (h, acts) in in_loop.values():
+            ok = ok and ff.scan_complete(h[0], h[1], acts)
+            scans += heads_of(g, h[0])
+        # "None" is answered only after a scan came to its end
+        falls = g.cfg.exit in g.cfg.reach([g.cfg.entry], removed=set(g.nodes_all(rets)))
+        if nones or falls:
+            ok = ok and bool(scans) and all(g.cfg.must_pass(scans, i) for i in nones)
+            if falls:
+                ok = ok and g.cfg.exit not in g.cfg.reach([g.cfg.entry], removed=set(g.nodes_all(rets)) | set(scans))
+        return ok and bool(rets)
+    finally:
+        _RFF_BUSY.discard(key)
+
+
+def _first_exception_ok(ck, cb, run):
+    """Iff raise_first_exception, the first element (in order) of the runner's answer that is an Exception instance is
+    raised.  Decided on what can be reached from the runner call when the flag is taken as set / as not set and a
+    failing element as present / absent: with the flag set, a complete in-order scan of the answer stands between the
+    runner call and every normal return and its first failing element is raised (and nothing is raised when there is
+    none); with the flag not set no element is chosen."""
+    FLAG = "raise_first_exception"
+
+    def flag(val):
+        def f(e, n):
+            if isinstance(e, ast.Name) and cb.xnorm(e, n) == FLAG and all(d.kind == "param" for d in cb.df.reaching(n, FLAG)):
+                return val
+            return None
+        return f
+
+    def answer_role(seqs, e, at):
+        return "answer" if e is run else None
+
+    ff = FirstFailure(ck, cb, Seqs(cb, None, answer_role), "answer", flag(True))
+    start = cb.nodes(run)
+    after = cb.cfg.reach(start, include_start=False)
+    raises = []
     for r in cb.stmts(ast.Raise):
-        if not isinstance(r.exc, ast.Name) or not cb.nodes(r):
+        if r.exc is None or not (set(cb.nodes(r)) & after):
             continue
+        if isinstance(r.exc, ast.Call) and isinstance(r.exc.func, ast.Name) and r.exc.func.id[:1].isupper():
+            continue  # a freshly constructed error (argument validation)
+        raises.append(r)
+    if not raises:
+        return False
+    after_off = cb.cfg.reach(start, edge_ok=under(cb, flag(False)), include_start=False)
+    in_loop = {}
+    for r in raises:
         at = cb.nodes(r)[0]
-        conds = cb.conditions(r)
-        if conds is None:
-            raise AnalysisError("call_batch: too many paths")
-        extras = {frozenset(c - base) for c in conds}
-        # (a) `for x in <answer>: if isinstance(x, Exception): raise x`
-        ds = cb.df.reaching(at, r.exc.id)
-        if ds and all(d.kind == "for" for d in ds) and len({id(d.stmt) for d in ds}) == 1:
-            lp = ds[0].stmt
-            if isinstance(lp.target, ast.Name) and cb.inside(r, lp) and _is_run_result(cb, run, lp.iter, cb.nodes(lp)[0]) \
-                    and extras == {frozenset({RFE, ("isinstance(%s, Exception)" % r.exc.id, True)})}:
-                # and the scan is not cut short: an iteration ends in this raise or goes on to the next element
-                hs = heads_of(cb, lp)
-                if cb.cfg.exit not in cb.cfg.reach(body_starts(cb, hs), removed=set(hs) | set(cb.nodes(r))):
-                    return True
-        # (b) `x = next((y for y in <answer> if isinstance(y, Exception)), None)`, raised when it is not None
-        lv = origins(cb, r.exc, at)
-        if len(lv) == 1 and isinstance(lv[0][0], ast.Call) and A.call_attr(lv[0][0]) == "next" and len(lv[0][0].args) == 2 \
-                and A.is_none(lv[0][0].args[1]) and isinstance(lv[0][0].args[0], ast.GeneratorExp):
-            g = lv[0][0].args[0]
-            gen = g.generators[0]
-            if len(g.generators) == 1 and isinstance(gen.target, ast.Name) and A.norm(g.elt) == gen.target.id \
-                    and [A.norm(c) for c in gen.ifs] == ["isinstance(%s, Exception)" % gen.target.id] \
-                    and _is_run_result(cb, run, gen.iter, lv[0][1]):
-                x = cb.xnorm(r.exc, at)
-                if extras in ({frozenset({RFE, (x + " is None", False)})}, {frozenset({RFE, (x, True)})}):
-                    return True
-    return False
+        h = ff.home(r)
+        if h is not None and ff.current(h[0], h[1], r.exc, at):
+            in_loop.setdefault(id(h[0]), (h, []))[1].extend(cb.nodes(r))
+            continue
+        # `raise V` for a value V that holds the first failing element, or None
+        cs = ff.value(r.exc, at)
+        if cs is None:
+            return False
+        lists = [l for (_e, _c, _g, l) in cs if l is not None]
+        there = ff.present(True, r.exc, at, lists, flag(True))
+        for (entry, commit, gates, lst) in cs:
+            # flag not set: the element is not chosen (or the choice is gated by the flag)
+            off = not (set(commit) & after_off) or any(eval3(cb, t, n, flag(False)) is (not arm) for (t, n, arm) in gates)
+            # flag set and a failing element present: the gates select this case
+            on = all(eval3(cb, t, n, there) is arm for (t, n, arm) in gates)
+            if not (off and on):
+                return False
+        entries = {i for (e_, _c, _g, _l) in cs for i in e_}
+        commits = {i for (_e, c_, _g, _l) in cs for i in c_}
+        same = set(cb.nodes_all([q for q in raises if cb.xnorm(q.exc, cb.nodes(q)[0]) == cb.xnorm(r.exc, at)]))
+        # flag set, a failing element present: no normal return, and the raise comes after the scan
+        if cb.cfg.exit in cb.cfg.reach(start, removed=same, edge_ok=under(cb, there), include_start=False):
+            return False
+        if set(cb.nodes(r)) & cb.cfg.reach(start, removed=entries, edge_ok=under(cb, there), include_start=False):
+            return False
+        # no failing element (or nothing chosen because the flag is not set): V is None and is not raised
+        for base in (flag(True), flag(False)):
+            if set(cb.nodes(r)) & cb.cfg.reach(start, edge_ok=under(cb, ff.present(False, r.exc, at, lists, base)), include_start=False):
+                return False
+        # what was found is not replaced before it is raised
+        if isinstance(r.exc, ast.Name):
+            others = {d.node for d in all_defs(cb, r.exc.id)} - commits
+            before_raise = {i for i in after if set(cb.nodes(r)) & cb.cfg.reach([i], include_start=False)}
+            if others & before_raise & cb.cfg.reach(sorted(commits), edge_ok=under(cb, flag(True)), include_start=False):
+                return False
+    for (h, acts) in in_loop.values():
+        lp, p = h
+        if not ff.scan_complete(lp, p, acts):
+            return False
+        if set(acts) & after_off:
+            return False
+        if cb.cfg.exit in cb.cfg.reach(start, removed=set(heads_of(cb, lp)), edge_ok=under(cb, flag(True)), include_start=False):
+            return False
+    return True
 
 
 def _range_call_role(mr):
@@ -1087,7 +1458,7 @@ def _check_front_end(ck, R3):
     okb = bool(elts)
     ck.ob(R3, cb.key(run, "dispatch"), okb, "the whole list is dispatched as one batch" if okb else
           "call_batch does not dispatch the list it built", cb.where(run))
-    ok7 = _first_exception_ok(cb, run)
+    ok7 = _first_exception_ok(ck, cb, run)
     ck.ob(R3, cb.key(None, "first-exception"), ok7, "with raise_first_exception the first exception in input order is raised" if ok7 else
           "call_batch does not raise the first exception (in input order) iff raise_first_exception", cb.where())
     rv = [r for r in cb.returns() if cb.nodes(r)]
